@@ -90,6 +90,20 @@ def gen_case(rng, primes, stats):
                 fam.append(k)
         pool += fam
         stats["shared_prefix_families"] = stats.get("shared_prefix_families", 0) + (1 if len(fam) >= 2 else 0)
+    # binary mode: a key and extensions of it in the SAME bucket (the harness hands prefix-related binary keys
+    # to the table at one shared address with different lengths)
+    if binm and rng.chance(0.8):
+        basek = [rng.range(0, 255) for _ in range(rng.range(1, 3))]
+        tb = bucket_of(size, nocase, binm, basek)
+        ext, t3 = [], 0
+        while len(ext) < rng.range(1, 3) and t3 < 70000:
+            t3 += 1
+            k = basek + [rng.range(0, 255), rng.range(0, 255)]
+            if bucket_of(size, nocase, binm, k) == tb and k not in ext:
+                ext.append(k)
+        # longest first so that its buffer exists when the shorter ones are entered
+        pool += ext + [basek]
+        stats["same_bucket_prefix_families"] = stats.get("same_bucket_prefix_families", 0) + (1 if ext else 0)
     # prefixes of each other, case variants, empty key, embedded zeros, high bytes
     base = [rng.range(97, 122) for _ in range(3)]
     pool += [base[:1], base[:2], base]
